@@ -356,8 +356,10 @@ func (k *knownFinding) matches(prop string, v *Violation) bool {
 	}
 	if k.Site != "" {
 		hay := v.Site + " " + strings.Join(v.Stack, " ") + " " + v.Msg
-		if !strings.Contains(hay, k.Site) {
-			return false
+		for _, part := range strings.Split(k.Site, " && ") {
+			if !strings.Contains(hay, part) {
+				return false
+			}
 		}
 	}
 	return true
@@ -538,6 +540,8 @@ func runProperty(rc *runConfig) int {
 		return dvs[a].v.Assertion+dvs[a].v.Site < dvs[b].v.Assertion+dvs[b].v.Site
 	})
 	var toReplay []*distinct
+	var inherit []*distinct
+	knownReps := map[*knownFinding][]*distinct{}
 	for i, e := range dvs {
 		for k := range known {
 			if known[k].matches(rc.prop, &e.v) {
@@ -555,6 +559,15 @@ func runProperty(rc *runConfig) int {
 		}
 		e.replayPath = filepath.Join(replayDir, fmt.Sprintf("%s-%s-%d.json", rc.prop, base, i))
 		writeJSON(e.replayPath, rf)
+		if e.known != nil {
+			// one native replay per known-finding record (up to 3 representatives); the
+			// other violations matching the same record inherit its verdict
+			if len(knownReps[e.known]) >= 3 {
+				inherit = append(inherit, e)
+				continue
+			}
+			knownReps[e.known] = append(knownReps[e.known], e)
+		}
 		toReplay = append(toReplay, e)
 	}
 	replayS := 0.0
@@ -577,6 +590,14 @@ func runProperty(rc *runConfig) int {
 			}
 		}
 		replayS = time.Since(tr).Seconds()
+		for _, e := range inherit {
+			e.confirmed = "not-replayed(representatives of the known finding did not confirm)"
+			for _, rep := range knownReps[e.known] {
+				if rep.confirmed == "confirmed" {
+					e.confirmed = "confirmed"
+				}
+			}
+		}
 	}
 
 	// ----- verdict
